@@ -146,6 +146,12 @@ def make_universe(rng: PlanRng, sysd, n_u, proc):
     ub = sysd["ub"]
     rows, kinds = [], []
     tries = 0
+    if rng.coin(0.3):
+        # a "dark" row: the capture of no light at all, K(baseline) - exactly zero once the
+        # baseline is subtracted (a black pixel / blank frame).  The literal is replaced at
+        # execution time by the estimator's own system_relative_capture(0) so that it is exact.
+        rows.append(sig(applyK(base)))
+        kinds.append("dark")
     while len(rows) < n_u and tries < 500:
         tries += 1
         kind = rng.choice(["in", "boundary", "out"], p=[0.5, 0.15, 0.35])
@@ -427,6 +433,15 @@ def execute(plan):
     s = plan["sys"]
     est = build_estimator(plan)
     A = est.A
+    if any(str(k).startswith("dark") for k in plan.get("U_kinds", [])):
+        plan = dict(plan)
+        U = np.array(plan["U"], dtype=float, copy=True)
+        dark = np.asarray(est.system_relative_capture(np.zeros(A.shape[1])), float)
+        for i, k in enumerate(plan["U_kinds"]):
+            if str(k).startswith("dark"):
+                U[i] = dark
+        plan["U"] = U
+        bump("reach:dark_row_in_universe")
     KA = (np.asarray(s["K"], float) @ A) if s["Kkind"] == "matrix" else \
         A * (np.asarray(s["K"], float).reshape(-1, 1) if s["Kkind"] == "vector" else s["K"])
     unique_x = (np.linalg.matrix_rank(A) == A.shape[1]) and np.linalg.cond(KA) <= 30
